@@ -173,3 +173,8 @@ def canaries(tier):
         {'name': 'jvp-inner-graph-dropped', 'job': 'step-milstein-scalar',
          'patches': [('torchsde._core.misc', "    _vjp = torch.autograd.grad(outputs, inputs, grad_outputs=dummy_outputs, create_graph=True, allow_unused=True)", "    _vjp = torch.autograd.grad(outputs, inputs, grad_outputs=dummy_outputs, create_graph=False, allow_unused=True)")]},
     ]
+
+
+def native_replay(ob):
+    from props.base import run_native
+    return run_native('c08')
